@@ -158,6 +158,41 @@ Theorem C03_contract_rename_file : forall C full w k r, k_queue k = [] ->
 Proof. exact contract_rename_file. Qed.
 Print Assumptions C03_contract_rename_file.
 
+(* rename of a directory onto a name that does not exist: inside the scope (moved + both parents modified + one
+   synthetic moved per descendant in os.walk order, by C14), out of it, into it (created + synthetic created per
+   descendant).  Two facts about the tree are hypotheses: os.walk under the new name afterwards finds what it found
+   under the old name before, and the names found are valid file names. *)
+Theorem C03_contract_rename_dir_partial : forall C full w k r, k_queue k = [] ->
+  forall dp np dq nq w',
+  dp <> [] -> last_is_sep dp = false -> valid_name np = true ->
+  dq <> [] -> last_is_sep dq = false -> valid_name nq = true ->
+  cover C r k (w_fs w) dp -> cover C r k (w_fs w) dq ->
+  fisdir (dp ++ sep :: np) (w_fs w) = true -> fisdir (dq ++ sep :: nq) (w_fs w) = false ->
+  content (w_fs w') (dq ++ sep :: nq) = content (w_fs w) (dp ++ sep :: np) ->
+  wf_tree (content (w_fs w) (dp ++ sep :: np)) = true ->
+  apply_op w (Rename (dp ++ sep :: np) (dq ++ sep :: nq)) = Some w' ->
+  exists evs, deliver_one C full w k r (Rename (dp ++ sep :: np) (dq ++ sep :: nq)) = Some evs /\
+    collapse evs = collapse (contract (c_recursive C) full (c_root C) (w_fs w)
+                                      (Rename (dp ++ sep :: np) (dq ++ sep :: nq))).
+Proof. exact contract_rename_dir_tree. Qed.
+Print Assumptions C03_contract_rename_dir_partial.
+
+(* not proved: a directory that replaces an (empty) directory - the victim's IN_ATTRIB / IN_DELETE_SELF / IN_IGNORED
+   are read after the reader has re-keyed its tables for the move *)
+Definition C03_contract_rename_dir_replacing_full : Prop := forall C full w k r, k_queue k = [] ->
+  forall dp np dq nq w',
+  dp <> [] -> last_is_sep dp = false -> valid_name np = true ->
+  dq <> [] -> last_is_sep dq = false -> valid_name nq = true ->
+  cover C r k (w_fs w) dp -> cover C r k (w_fs w) dq ->
+  cover C r k (w_fs w) (dp ++ sep :: np) -> cover C r k (w_fs w) (dq ++ sep :: nq) ->
+  fisdir (dp ++ sep :: np) (w_fs w) = true -> fisdir (dq ++ sep :: nq) (w_fs w) = true ->
+  content (w_fs w') (dq ++ sep :: nq) = content (w_fs w) (dp ++ sep :: np) ->
+  wf_tree (content (w_fs w) (dp ++ sep :: np)) = true ->
+  apply_op w (Rename (dp ++ sep :: np) (dq ++ sep :: nq)) = Some w' ->
+  exists evs, deliver_one C full w k r (Rename (dp ++ sep :: np) (dq ++ sep :: nq)) = Some evs /\
+    collapse evs = collapse (contract (c_recursive C) full (c_root C) (w_fs w)
+                                      (Rename (dp ++ sep :: np) (dq ++ sep :: nq))).
+
 (* ================================================================== history-level soundness *)
 (* Every event queued along any history of the pipeline model is justified by an operation executed before it. *)
 Definition C03_sound_full : Prop :=
@@ -247,3 +282,26 @@ Example C03_contract_rename_file_in_nonvacuous :
   ex_ok true false [ex_O; ex_Rd] (Rename ex_Oy q) [mk FileCreated q []; parent_modified q] /\
   ex_ok true true [ex_O; ex_Rd] (Rename ex_Oy q) [mk FileMoved [] q; parent_modified q].
 Proof. vm_compute. repeat split; try discriminate; repeat constructor; eexists; repeat split. Qed.
+
+Example C03_contract_rename_dir_inside_nonvacuous :        (* /R/d -> /R/n, descendants e (dir) and f (file) *)
+  let q := ex_sl ex_R 110 in
+  content (frename ex_Rd q ex_fs) q = content ex_fs ex_Rd /\ wf_tree (content ex_fs ex_Rd) = true /\
+  ex_ok true false [ex_R] (Rename ex_Rd q)
+        [mk DirMoved ex_Rd q; parent_modified ex_Rd; parent_modified q;
+         {| ev_cls := DirMoved; ev_src := ex_Rde; ev_dest := ex_sl q 101; ev_synth := true |};
+         {| ev_cls := FileMoved; ev_src := ex_Rdf; ev_dest := ex_sl q 102; ev_synth := true |}].
+Proof. vm_compute. repeat split; try discriminate. repeat constructor; eexists; repeat split. Qed.
+
+Example C03_contract_rename_dir_out_nonvacuous :
+  let q := ex_sl ex_O 100 in
+  ex_ok true false [ex_R; ex_O] (Rename ex_Rd q) [mk DirDeleted ex_Rd []; parent_modified ex_Rd] /\
+  ex_ok true true [ex_R; ex_O] (Rename ex_Rd q) [mk DirMoved ex_Rd []; parent_modified ex_Rd].
+Proof. vm_compute. repeat split; try discriminate; repeat constructor; eexists; repeat split. Qed.
+
+Example C03_contract_rename_dir_in_nonvacuous :            (* /O/z -> /R/d/z, descendant g (file) *)
+  let q := ex_sl ex_Rd 122 in
+  content (frename ex_Oz q ex_fs) q = content ex_fs ex_Oz /\ wf_tree (content ex_fs ex_Oz) = true /\
+  ex_ok true false [ex_O; ex_Rd] (Rename ex_Oz q)
+        [mk DirCreated q []; parent_modified q;
+         {| ev_cls := FileCreated; ev_src := ex_sl q 103; ev_dest := []; ev_synth := true |}].
+Proof. vm_compute. repeat split; try discriminate. repeat constructor; eexists; repeat split. Qed.
